@@ -117,7 +117,8 @@ pub broadcast proof fn axiom_tmin()
 #[verifier::external_body]
 pub broadcast proof fn axiom_r32_wf(r: Rational32)
     ensures #![trigger ratio_den::<i32>(r)] #![trigger ratio_num::<i32>(r)]
-      ratio_den::<i32>(r) > 0, fits_i32(ratio_num::<i32>(r)), fits_i32(ratio_den::<i32>(r)) {}
+      ratio_den::<i32>(r) > 0, fits_i32(ratio_num::<i32>(r)), fits_i32(ratio_den::<i32>(r)),
+      ratio_num::<i32>(r) == 0 ==> ratio_den::<i32>(r) == 1 {}
 #[verifier::external_body]
 pub broadcast proof fn axiom_r64_wf(r: Rational64)
     ensures #![trigger ratio_den::<i64>(r)] #![trigger ratio_num::<i64>(r)]
@@ -178,7 +179,7 @@ proof fn lemma_fmod_pos(a: int, b: int) requires b > 0 ensures trem(trem(a, b) +
             lemma_trem_small(b - m % b, b);
             vstd::arithmetic::div_mod::lemma_fundamental_div_mod(m, b);
             let q = -(m / b) - 1;
-            assert(a == b * q + (b - m % b)) by (nonlinear_arith) requires m == b * (m / b) + m % b, a == -m, q == -(m / b) - 1;
+            assert(a == q * b + (b - m % b)) by (nonlinear_arith) requires m == b * (m / b) + m % b, a == -m, q == -(m / b) - 1;
             vstd::arithmetic::div_mod::lemma_fundamental_div_mod_converse(a, b, q, b - m % b);
         }
     }
@@ -195,6 +196,42 @@ pub broadcast proof fn lemma_fmod(a: int, b: int) requires b != 0 ensures #[trig
         lemma_trem_neg(a, b);
         lemma_trem_neg(trem(a, b) + b, b);
         lemma_fmod_pos(-a, -b);
+    }
+}
+/// floor and ceiling of n/d (d > 0) from the truncating quotient and remainder
+pub broadcast proof fn lemma_floor_ceil_from_trunc(n: int, d: int)
+    requires d > 0
+    ensures #![trigger tdiv(n, d)]
+        fdiv(n, d) == (if trem(n, d) < 0 { tdiv(n, d) - 1 } else { tdiv(n, d) }),
+        cdiv(n, d) == (if trem(n, d) > 0 { tdiv(n, d) + 1 } else { tdiv(n, d) }),
+{
+    if n >= 0 {
+        lemma_trem_pos(n, d);
+        // ceil: -((-n) / d)
+        if n % d == 0 {
+            vstd::arithmetic::div_mod::lemma_fundamental_div_mod(n, d);
+            assert(-n == (-(n / d)) * d + 0) by (nonlinear_arith) requires n == d * (n / d) + n % d, n % d == 0;
+            vstd::arithmetic::div_mod::lemma_fundamental_div_mod_converse(-n, d, -(n / d), 0);
+        } else {
+            vstd::arithmetic::div_mod::lemma_fundamental_div_mod(n, d);
+            assert(-n == (-(n / d) - 1) * d + (d - n % d)) by (nonlinear_arith) requires n == d * (n / d) + n % d;
+            vstd::arithmetic::div_mod::lemma_fundamental_div_mod_converse(-n, d, -(n / d) - 1, d - n % d);
+        }
+    } else {
+        let m = -n;
+        lemma_trem_pos(m, d);
+        assert(trem(n, d) == -(m % d)) by {
+            vstd::arithmetic::div_mod::lemma_fundamental_div_mod(m, d);
+            assert(d * (-(m / d)) == -(d * (m / d))) by (nonlinear_arith);
+        }
+        vstd::arithmetic::div_mod::lemma_fundamental_div_mod(m, d);
+        if m % d == 0 {
+            assert(n == (-(m / d)) * d + 0) by (nonlinear_arith) requires m == d * (m / d) + m % d, m % d == 0, n == -m;
+            vstd::arithmetic::div_mod::lemma_fundamental_div_mod_converse(n, d, -(m / d), 0);
+        } else {
+            assert(n == (-(m / d) - 1) * d + (d - m % d)) by (nonlinear_arith) requires m == d * (m / d) + m % d, n == -m;
+            vstd::arithmetic::div_mod::lemma_fundamental_div_mod_converse(n, d, -(m / d) - 1, d - m % d);
+        }
     }
 }
 // ---------------------------------------------------------------- primitive signed / and % (Rust reference: truncating)
@@ -290,13 +327,45 @@ pub broadcast proof fn axiom_prim_int_r32(b: &Rational32)
 pub broadcast proof fn axiom_prim_f64_total()
     ensures prim_f64_total::<BigInt>(), prim_f64_total::<i64>(), prim_f64_total::<Rational32>() {}
 
+/// num::CheckedDiv: trait-level contract so that the implementation for Ratio can carry a PRECONDITION
+/// (`assume_specification` on a trait method may not have one).
+pub uninterp spec fn cdiv_req<T>(a: &T, b: &T) -> bool;
+pub uninterp spec fn cdiv_ens<T>(a: &T, b: &T, r: Option<T>) -> bool;
+#[verifier::external_trait_specification]
+pub trait ExCheckedDiv: Sized + core::ops::Div<Self, Output = Self> {
+    type ExternalTraitSpecificationFor: num::CheckedDiv;
+    fn checked_div(&self, v: &Self) -> (r: Option<Self>)
+        requires cdiv_req(self, v)
+        ensures cdiv_ens(self, v, r);
+}
+/// i64: total; None exactly for a zero divisor and MIN / -1
+#[verifier::external_body]
+pub broadcast proof fn axiom_cdiv_i64(a: &i64, b: &i64, r: Option<i64>)
+    ensures #![trigger cdiv_ens::<i64>(a, b, r)]
+        cdiv_req::<i64>(a, b),
+        cdiv_ens::<i64>(a, b, r) ==> (r matches Some(v) ==> *b != 0 && v == tdiv(*a as int, *b as int)) && (r is None <==> *b == 0 || (*a == i64::MIN && *b == -1)),
+{}
+#[verifier::external_body]
+pub broadcast proof fn axiom_cdiv_i64_req(a: &i64, b: &i64) ensures #[trigger] cdiv_req::<i64>(a, b) {}
+/// Ratio<i32> (num-rational 0.4.1): a zero divisor yields None; otherwise it takes gcd(numer, numer) when the denominators differ,
+/// and num-integer's gcd PANICS (|i32::MIN| overflows) for gcd(0, i32::MIN): dividing a zero by a ratio whose numerator is i32::MIN
+#[verifier::external_body]
+pub broadcast proof fn axiom_cdiv_r32_req(a: &Rational32, b: &Rational32)
+    ensures #[trigger] cdiv_req::<Rational32>(a, b) == !(ratio_num(*a) == 0 && ratio_num(*b) == i32::MIN as int && ratio_den(*a) != ratio_den(*b)) {}
+#[verifier::external_body]
+pub broadcast proof fn axiom_cdiv_r32(a: &Rational32, b: &Rational32, r: Option<Rational32>)
+    ensures #[trigger] cdiv_ens::<Rational32>(a, b, r) ==>
+        (r matches Some(v) ==> ratio_num(*b) != 0 && ratio_den(v) > 0 && q_eq(ratio_num(v), ratio_den(v), ratio_num(*a) * ratio_den(*b), ratio_den(*a) * ratio_num(*b)))
+        && (r is None <==> ratio_num(*b) == 0 || ratio_div_none::<i32>(ratio_num(*a), ratio_den(*a), ratio_num(*b), ratio_den(*b))),
+{}
 pub broadcast group group_num {
+    axiom_cdiv_i64, axiom_cdiv_i64_req, axiom_cdiv_r32_req, axiom_cdiv_r32,
     axiom_int_of_i32, axiom_int_of_i64, axiom_tmin, axiom_r32_wf, axiom_r64_wf,
     axiom_i64_div, axiom_i64_rem,
     axiom_obeys, @@AX_NAMES@@,
     axiom_big_eq, axiom_big_cmp, axiom_r32_eq, axiom_r32_cmp, axiom_cmp_obeys, axiom_r32_ref_eq, axiom_rc_big_eq, axiom_rc_big_ref_eq,
     axiom_prim_int_big, axiom_prim_int_i64, axiom_prim_int_u32, axiom_prim_int_r32, axiom_prim_f64_total,
-    vstd::arithmetic::mul::lemma_mul_is_commutative, lemma_scale_ge, lemma_ipow_one, lemma_ipow_pos, axiom_big_into_big, lemma_fmod,
+    vstd::arithmetic::mul::lemma_mul_is_commutative, lemma_scale_ge, lemma_ipow_one, lemma_ipow_pos, axiom_big_into_big, lemma_fmod, lemma_floor_ceil_from_trunc,
 }
 
 // ---------------------------------------------------------------- assumed specs of `num` / `core` functions
@@ -306,8 +375,7 @@ pub assume_specification [<i64 as num::CheckedSub>::checked_sub] (a: &i64, b: &i
     ensures (r matches Some(v) ==> v == *a - *b), (r is None <==> !fits_i64(*a - *b));
 pub assume_specification [<i64 as num::CheckedMul>::checked_mul] (a: &i64, b: &i64) -> (r: Option<i64>)
     ensures (r matches Some(v) ==> v == *a * *b), (r is None <==> !fits_i64(*a * *b));
-pub assume_specification [<i64 as num::CheckedDiv>::checked_div] (a: &i64, b: &i64) -> (r: Option<i64>)
-    ensures (r matches Some(v) ==> *b != 0 && v == tdiv(*a as int, *b as int)), (r is None <==> *b == 0 || (*a == i64::MIN && *b == -1));
+pub assume_specification [i64::wrapping_neg] (a: i64) -> (r: i64) ensures r == (if a == i64::MIN { i64::MIN as int } else { -(a as int) });
 pub assume_specification [i64::wrapping_rem] (a: i64, b: i64) -> (r: i64)
     requires b != 0,
     ensures r == trem(a as int, b as int);
@@ -352,17 +420,17 @@ pub assume_specification<T: Clone + num::Integer + num::CheckedMul + num::Checke
 pub assume_specification<T: Clone + num::Integer + num::CheckedMul> [<Ratio<T> as num::CheckedMul>::checked_mul] (a: &Ratio<T>, b: &Ratio<T>) -> (r: Option<Ratio<T>>)
     ensures (r matches Some(v) ==> ratio_den(v) > 0 && q_eq(ratio_num(v), ratio_den(v), ratio_num(*a) * ratio_num(*b), ratio_den(*a) * ratio_den(*b))),
             (r is None <==> ratio_mul_none::<T>(ratio_num(*a), ratio_den(*a), ratio_num(*b), ratio_den(*b)));
-/// `checked_div` is total: a zero divisor yields `None`
-pub assume_specification<T: Clone + num::Integer + num::CheckedMul> [<Ratio<T> as num::CheckedDiv>::checked_div] (a: &Ratio<T>, b: &Ratio<T>) -> (r: Option<Ratio<T>>)
-    ensures (r matches Some(v) ==> ratio_num(*b) != 0 && ratio_den(v) > 0 && q_eq(ratio_num(v), ratio_den(v), ratio_num(*a) * ratio_den(*b), ratio_den(*a) * ratio_num(*b))),
-            (r is None <==> ratio_num(*b) == 0 || ratio_div_none::<T>(ratio_num(*a), ratio_den(*a), ratio_num(*b), ratio_den(*b)));
 pub assume_specification<T: Clone + num::Integer> [Ratio::<T>::is_integer] (a: &Ratio<T>) -> (r: bool)
     ensures r <==> ratio_den(*a) == 1;
 pub assume_specification<T: Clone + num::Integer> [Ratio::<T>::to_integer] (a: &Ratio<T>) -> (r: T)
     ensures int_of(r) == tdiv(ratio_num(*a), ratio_den(*a)), ratio_den(*a) == 1 ==> int_of(r) == ratio_num(*a);
+/// num-rational computes `(numer - denom + 1) / denom` for negatives: overflows (panics) when numer - denom < T::MIN
 pub assume_specification<T: Clone + num::Integer> [Ratio::<T>::floor] (a: &Ratio<T>) -> (r: Ratio<T>)
+    requires ratio_num(*a) < 0 ==> ratio_num(*a) - ratio_den(*a) >= tmin::<T>(),
     ensures ratio_den(r) == 1, ratio_num(r) == fdiv(ratio_num(*a), ratio_den(*a));
+/// ... and `(numer + denom - 1) / denom` for non-negatives: overflows when numer + denom > T::MAX
 pub assume_specification<T: Clone + num::Integer> [Ratio::<T>::ceil] (a: &Ratio<T>) -> (r: Ratio<T>)
+    requires ratio_num(*a) >= 0 ==> ratio_num(*a) + ratio_den(*a) <= tmax::<T>(),
     ensures ratio_den(r) == 1, ratio_num(r) == cdiv(ratio_num(*a), ratio_den(*a));
 pub assume_specification<T: Clone + num::Integer> [Ratio::<T>::trunc] (a: &Ratio<T>) -> (r: Ratio<T>)
     ensures ratio_den(r) == 1, ratio_num(r) == tdiv(ratio_num(*a), ratio_den(*a));
@@ -376,6 +444,7 @@ pub assume_specification [<BigInt as From<i64>>::from] (a: i64) -> (r: BigInt) e
 pub assume_specification [<BigInt as From<i32>>::from] (a: i32) -> (r: BigInt) ensures big_val(r) == a;
 pub assume_specification [<BigInt as From<u64>>::from] (a: u64) -> (r: BigInt) ensures big_val(r) == a;
 pub assume_specification [<BigInt as num::Signed>::abs] (a: &BigInt) -> (r: BigInt) ensures big_val(r) == iabs(big_val(*a));
+pub assume_specification<T: Clone + num::Integer + num::Signed> [<Ratio<T> as num::Signed>::is_negative] (a: &Ratio<T>) -> (r: bool) ensures r == (ratio_num(*a) < 0);
 pub assume_specification [<BigInt as num::Signed>::is_negative] (a: &BigInt) -> (r: bool) ensures r == (big_val(*a) < 0);
 pub assume_specification [BigInt::pow] (a: &BigInt, e: u32) -> (r: BigInt) ensures big_val(r) == ipow(big_val(*a), e as nat);
 
@@ -524,6 +593,16 @@ impl<'a> vstd::std_specs::ops::MulSpecImpl<&'a Number> for &'a Number {
     open spec fn mul_req(self, rhs: &'a Number) -> bool { true }
     open spec fn mul_spec(self, rhs: &'a Number) -> Number { arbitrary() }
 }
+impl vstd::std_specs::ops::AddAssignSpecImpl<Number> for Number {
+    open spec fn obeys_add_assign_spec() -> bool { false }
+    open spec fn add_assign_req(&self, rhs: Number) -> bool { true }
+    open spec fn add_assign_spec(&self, rhs: Number) -> &Number { arbitrary() }
+}
+impl vstd::std_specs::ops::MulAssignSpecImpl<Number> for Number {
+    open spec fn obeys_mul_assign_spec() -> bool { false }
+    open spec fn mul_assign_req(&self, rhs: Number) -> bool { true }
+    open spec fn mul_assign_spec(&self, rhs: Number) -> &Number { arbitrary() }
+}
 impl vstd::std_specs::cmp::PartialEqSpecImpl for Number {
     open spec fn obeys_eq_spec() -> bool { false }
     open spec fn eq_spec(&self, other: &Number) -> bool { arbitrary() }
@@ -601,6 +680,7 @@ UNITS = [{
             'ensures': [
                 (S, 'is_exact(*self) && is_exact(*rhs) ==> is_exact(r) || gives_up_sub(*self, *rhs)'),
                 (S, 'is_exact(r) ==> is_exact(*self) && is_exact(*rhs) && is_diff(r, *self, *rhs)'),
+                (S, '!(*self is Rational) && !(*rhs is Rational) ==> !(r is Rational)'),
             ],
         },
         'impl Mul for &Number::mul': {
@@ -608,6 +688,7 @@ UNITS = [{
             'ensures': [
                 (S, 'is_exact(*self) && is_exact(*rhs) ==> is_exact(r) || gives_up_mul(*self, *rhs)'),
                 (S, 'is_exact(r) ==> is_exact(*self) && is_exact(*rhs) && is_prod(r, *self, *rhs)'),
+                (S, '!(*self is Rational) && !(*rhs is Rational) ==> !(r is Rational)'),
             ],
         },
         'impl Sub for Number::sub': {
@@ -615,6 +696,7 @@ UNITS = [{
             'ensures': [
                 (S, 'is_exact(self) && is_exact(rhs) ==> is_exact(r) || gives_up_sub(self, rhs)'),
                 (S, 'is_exact(r) ==> is_exact(self) && is_exact(rhs) && is_diff(r, self, rhs)'),
+                (S, '!(self is Rational) && !(rhs is Rational) ==> !(r is Rational)'),
             ],
         },
         'impl Mul for Number::mul': {
@@ -622,6 +704,7 @@ UNITS = [{
             'ensures': [
                 (S, 'is_exact(self) && is_exact(rhs) ==> is_exact(r) || gives_up_mul(self, rhs)'),
                 (S, 'is_exact(r) ==> is_exact(self) && is_exact(rhs) && is_prod(r, self, rhs)'),
+                (S, '!(self is Rational) && !(rhs is Rational) ==> !(r is Rational)'),
             ],
         },
         'impl Div for Number::div': {
@@ -652,6 +735,17 @@ UNITS = [{
                 (S, '(*self is Rational && is_int(*self)) ==> r == Number::Fixnum(vnum(*self) as i64)'),
                 (S, '!(*self is Rational && is_int(*self)) ==> r == *self'),
             ],
+        },
+        'impl AddAssign for Number::add_assign': {
+            'props': ['C08', 'C06'],
+            'ensures': [(S, 'is_exact(*final(self)) ==> is_exact(*old(self)) && is_exact(rhs) && is_sum(*final(self), *old(self), rhs)'),
+                        (S, 'is_exact(*old(self)) && is_exact(rhs) ==> is_exact(*final(self)) || gives_up_add(*old(self), rhs)')],
+        },
+        'impl MulAssign for Number::mul_assign': {
+            'props': ['C08', 'C06'],
+            'ensures': [(S, 'is_exact(*final(self)) ==> is_exact(*old(self)) && is_exact(rhs) && is_prod(*final(self), *old(self), rhs)'),
+                        (S, '!(*old(self) is Rational) && !(rhs is Rational) ==> !(*final(self) is Rational)'),
+                        (S, 'is_exact(*old(self)) && is_exact(rhs) ==> is_exact(*final(self)) || gives_up_mul(*old(self), rhs)')],
         },
         'impl Number::quotient': {
             'props': ['C08', 'C06'],
@@ -721,6 +815,13 @@ UNITS = [{
         'impl PartialOrd for Number::partial_cmp': {
             'props': ['C09', 'C06'],
             'ensures': [(['C09'], 'is_exact(*self) && is_exact(*rhs) ==> r == Some(v_cmp(*self, *rhs))')],
+        },
+        '::checked_div_rational': {
+            'props': ['C08', 'C06'],
+            'ensures': [
+                (S, 'r matches Some(v) ==> ratio_num(*rhs) != 0 && ratio_den(v) > 0 && q_eq(ratio_num(v), ratio_den(v), ratio_num(*lhs) * ratio_den(*rhs), ratio_den(*lhs) * ratio_num(*rhs))'),
+                (S, 'r is None <==> ratio_num(*rhs) == 0 || (ratio_num(*lhs) != 0 && ratio_div_none::<i32>(ratio_num(*lhs), ratio_den(*lhs), ratio_num(*rhs), ratio_den(*rhs)))'),
+            ],
         },
         'impl Div for &Number::div': {
             'props': ['C08', 'C06'],
